@@ -21,7 +21,7 @@ open Wac Wac.Ast Wac.Lex Wac.Parse Wac.Spec.Grammar
 
 @[simp] theorem opt_apply {α} (p : SP α) (ts : List STok) :
     opt p ts = (p ts).map (fun x => (some x.1, x.2)) ++ [(none, ts)] := by
-  simp [opt, List.flatMap_def, Function.comp_def]
+  simp [opt, List.flatMap_def]
   induction p ts <;> simp_all
 
 /-! ### terminals on abstracted tokens -/
